@@ -27,7 +27,7 @@ type Case struct {
 
 func genCase(t *rapid.T) Case {
 	o := mpcl.Opts{MaxStmts: 10, MaxDepth: 3, Helpers: 2, Arrays: true,
-		Structs: true, Loops: true, ArrayParams: true, DynIndex: true}
+		Structs: true, Loops: true, ArrayParams: true, DynIndex: true, StructParams: true, PlainDiv: true}
 	p := mpcl.Draw(t, o)
 	return Case{Prog: p, Inputs: mpcl.DrawInputs(t, p, 8)}
 }
@@ -51,6 +51,10 @@ func Check(p *mpcl.Prog, inputs [][]string, params *utils.Params) ev.Outcome {
 			return ev.Outcome{Skip: "bad input vector: " + err.Error()}
 		}
 		want, err := p.Run(args)
+		if mpcl.IsDivZero(err) {
+			ev.Get(prop).Count("input-vectors-skipped-division-by-zero", 1)
+			continue
+		}
 		if err != nil {
 			return ev.Outcome{Skip: "interpreter: " + err.Error()}
 		}
